@@ -66,12 +66,14 @@ def extract_chain(P, fn):
     return steps
 
 
-def comparators(ctx, P, rule="ORDER-CMP"):
+def comparators(ctx, P, rule="ORDER-CMP", only=None):
     ctx.rule(rule, "every sort comparator is a well-formed lexicographic chain (each step `(a.f > b.f) - (a.f < b.f)` uses one "
                    "field on both sides and opposite operators, later steps only under ret == 0) and its (field, direction) "
                    "sequence equals the documented key order")
     tu = P.tus["tables"]
     for name, exp in EXPECTED.items():
+        if only is not None and name not in only:
+            continue
         fn = P.func(name, "tables")
         ctx.need(fn is not None, "comparator %s" % name)
         steps = extract_chain(P, fn)
@@ -171,7 +173,7 @@ def bookmark_cursor(ctx, P, rule="ORDER-BOOKMARK"):
                    "`%s` initialised with %s" % (cur, inits))
 
 
-def memcpy_alias(ctx, P, rule="MEMCPY-ALIAS", tus=("tables",)):
+def memcpy_alias(ctx, P, rule="MEMCPY-ALIAS", tus=("tables",), funcs=None):
     ctx.rule(rule, "no tsk_memcpy copies within one table column (destination and source based on the same column path): permuting "
                    "rows in place must read from the saved copy, otherwise earlier writes clobber later sources")
     from sa.expr import local_aliases
@@ -179,6 +181,8 @@ def memcpy_alias(ctx, P, rule="MEMCPY-ALIAS", tus=("tables",)):
     for key in tus:
         tu = P.tus[key]
         for fn in tu.funcs.values():
+            if funcs is not None and not funcs(fn.name):
+                continue
             al = None
             k = 0
             for c in walk(fn.body):
